@@ -550,6 +550,7 @@ fn c10_parent(args: &Args) {
     if agg.execs == 0 && xsum.runs == 0 {
         harness_error("no execution ran");
     }
+    drop(scratch);
     std::process::exit(if new_violations > 0 { 1 } else { 0 });
 }
 
